@@ -350,3 +350,100 @@ def forward_flow(fn, start_local, sink_pred, through_calls=True, max_iter=40):
         if not grew:
             break
     return None
+
+
+# ---------------------------------------------------------------- private-helper cones
+def owner_cone(fb, roots, crates=None):
+    """The set of function ids 'owned' by `roots`: the roots, their closures, and (transitively) every non-public
+    function whose callers all lie in the cone. Extracting part of an owner into a private helper, or turning a closure
+    into a named private fn, keeps the code inside the cone; a public function or one with an outside caller is not
+    absorbed."""
+    roots = [r if isinstance(r, str) else r.id for r in roots]
+    cone = set(roots)
+    callers = {}
+    for g in fb.fns.values():
+        o = g.root or g.id
+        for t in g.calls():
+            if t.callee in fb.fns:
+                callers.setdefault(fb.fns[t.callee].root or t.callee, set()).add(o)
+            # functions passed by name (`.map(helper)`, `.contains(is_ws)`) are used by the caller as well
+            for a in t.args:
+                c = a.get("const") if isinstance(a, dict) else None
+                if c and c.get("fn") in fb.fns:
+                    callers.setdefault(c["fn"], set()).add(o)
+        for s in g.stmts():
+            for a in s.ops:
+                c = a.get("const") if isinstance(a, dict) else None
+                if c and c.get("fn") in fb.fns:
+                    callers.setdefault(c["fn"], set()).add(o)
+    changed = True
+    while changed:
+        changed = False
+        for g in fb.fns.values():
+            gid = g.root or g.id
+            if gid in cone or g.root:
+                continue
+            if crates and g.crate not in crates:
+                continue
+            if g.j.get("vis") == "pub" and not g.j.get("impl_for") is None and False:
+                continue
+            if g.j.get("vis") == "pub":
+                continue
+            cs = callers.get(gid, set())
+            if cs and cs <= cone:
+                cone.add(gid)
+                changed = True
+    return cone
+
+
+def cone_fns(fb, cone):
+    """all bodies (functions and their closures) belonging to a cone"""
+    return [g for g in fb.fns.values() if (g.root or g.id) in cone]
+
+
+def lifted_blocks(fb, f, pred, cone=None, depth=3):
+    """Blocks of `f` at which an event satisfying pred(term_or_stmt, owner_fn) happens, either in `f` itself or inside
+    a call made from that block to a member of f's private-helper cone (transitively), or in a closure built in that
+    block. 'May' semantics: the event occurs on some path of the helper."""
+    cone = cone if cone is not None else owner_cone(fb, [f.root or f.id])
+    memo = {}
+
+    def may(g, d):
+        if g.id in memo:
+            return memo[g.id]
+        memo[g.id] = False
+        r = False
+        for b in g.blocks:
+            for s in b.stmts:
+                if pred(s, g):
+                    r = True
+            t = b.term
+            if pred(t, g):
+                r = True
+            if not r and d > 0 and t.op == "call" and t.callee in fb.fns and (fb.fns[t.callee].root or t.callee) in cone \
+                    and fb.fns[t.callee] is not g:
+                r = may(fb.fns[t.callee], d - 1)
+            if r:
+                break
+        if not r and d > 0:
+            for c in fb.closures_of(g):
+                if may(c, d - 1):
+                    r = True
+                    break
+        memo[g.id] = r
+        return r
+
+    out = []
+    for b in f.blocks:
+        hit = any(pred(s, f) for s in b.stmts) or pred(b.term, f)
+        t = b.term
+        if not hit and t.op == "call" and t.callee in fb.fns and (fb.fns[t.callee].root or t.callee) in cone and fb.fns[t.callee] is not f:
+            hit = may(fb.fns[t.callee], depth - 1)
+        if not hit:
+            for s in b.stmts:
+                if s.rv == "aggregate" and s.j.get("agg") in ("closure", "coroutine_closure") and s.j.get("def") in fb.fns:
+                    if may(fb.fns[s.j["def"]], depth - 1):
+                        hit = True
+        if hit:
+            out.append(b.i)
+    return out
